@@ -128,7 +128,13 @@ pub(crate) fn vertex_element_parser(count: u16) -> BinResult<Vec<VertexDeclarati
             }
         }
 
-        let to_seek = NUM_VERTICES as usize * 8 - (declaration.elements.len() + 1) * 8;
+        // a declaration has room for NUM_VERTICES elements: one without an end marker inside that room is damaged
+        let to_seek = (NUM_VERTICES as usize * 8)
+            .checked_sub((declaration.elements.len() + 1) * 8)
+            .ok_or_else(|| binrw::Error::AssertFail {
+                pos: 0,
+                message: "vertex declaration without an end marker".to_string(),
+            })?;
         reader.seek(SeekFrom::Current(to_seek as i64))?;
     }
 
